@@ -118,7 +118,7 @@ class CFG:
             return n, [(n, "n")]
         if isinstance(st, ast.If):
             t = self._new("test", st.test, st)
-            if self.may_raise(st.test):
+            if self.may_raise(st.test) or ctx.protected:
                 self._edge(t, ctx.on_exc_target(self), "exc")
             bf, bo = self._block(st.body, ctx)
             outs = []
@@ -189,7 +189,7 @@ class CFG:
             return self._try(st, ctx)
         if isinstance(st, ast.Return):
             n = self._new("stmt", st)
-            if st.value is not None and self.may_raise(st.value):
+            if st.value is not None and (self.may_raise(st.value) or (ctx.protected and not isinstance(st.value, (ast.Constant, ast.Name)))):
                 self._edge(n, ctx.on_exc_target(self), "exc")
             self._edge(n, ctx.on_return_target(self), "n")
             return n, []
@@ -219,7 +219,7 @@ class CFG:
             return n, outs
         # simple statement
         n = self._new("stmt", st)
-        if self.may_raise(st):
+        if self.may_raise(st) or (ctx.protected and not isinstance(st, ast.Pass)):
             self._edge(n, ctx.on_exc_target(self), "exc")
         return n, [(n, "n")]
 
@@ -253,7 +253,7 @@ class CFG:
         inner_cnt = via_finally(ctx.on_continue_target, "cnt") if ctx.on_continue is not None or ctx._cnt else None
 
         # handlers context: exceptions inside handlers go to outer (through finally)
-        hctx = _Ctx(None, None, None, None, _exc=outer_exc, _ret=inner_ret, _brk=inner_brk, _cnt=inner_cnt)
+        hctx = _Ctx(None, None, None, None, _exc=outer_exc, _ret=inner_ret, _brk=inner_brk, _cnt=inner_cnt, protected=ctx.protected)
         dispatch = None
         if st.handlers:
             dispatch = self._new("dispatch", None, st)
@@ -281,7 +281,7 @@ class CFG:
             body_exc = lambda cfg: dispatch
         else:
             body_exc = outer_exc
-        bctx = _Ctx(None, None, None, None, _exc=body_exc, _ret=inner_ret, _brk=inner_brk, _cnt=inner_cnt)
+        bctx = _Ctx(None, None, None, None, _exc=body_exc, _ret=inner_ret, _brk=inner_brk, _cnt=inner_cnt, protected=bool(st.handlers) or ctx.protected)
         bf, bo = self._block(st.body, bctx)
         # else clause runs after body, exceptions there are not caught by handlers
         ectx = hctx
@@ -401,7 +401,8 @@ class CFG:
 
 
 class _Ctx:
-    def __init__(self, on_exc, on_return, on_break, on_continue, _exc=None, _ret=None, _brk=None, _cnt=None):
+    def __init__(self, on_exc, on_return, on_break, on_continue, _exc=None, _ret=None, _brk=None, _cnt=None, protected=False):
+        self.protected = protected  # inside a try body with handlers: any statement may raise (implicit exceptions)
         self.on_exc = on_exc
         self.on_return = on_return
         self.on_break = on_break
@@ -424,5 +425,5 @@ class _Ctx:
         return self._cnt(cfg) if self._cnt else self.on_continue
 
     def derive(self, on_break, on_continue):
-        c = _Ctx(self.on_exc, self.on_return, on_break, on_continue, self._exc, self._ret, None, None)
+        c = _Ctx(self.on_exc, self.on_return, on_break, on_continue, self._exc, self._ret, None, None, protected=self.protected)
         return c
